@@ -577,6 +577,7 @@ pub fn property() -> Property {
         id: "C08",
         cases,
         clauses: &["registry-linearizable", "registry-linearizable-concurrent-history", "registry-history-with-termination"],
+        full_rerun_check: true,
         assumptions: &[
             "identity of a returned address is observed by a call through it (hannibal offers no public identity); a dead address has no observable identity and is matched against the model's prediction",
             "release semantics (debug_assert!(ping) in from_registry compiled out) in the primary build",
